@@ -86,6 +86,12 @@ class ExportSim:
             end = 'crash_after_ack' if rng.random() < 0.4 else 'exit'
             name = 'cells' if shared_stem else f'geom{k}'
             ops.append({'op': 'export', 'fmt': fmt, 'target': target, 'name': name, 'faults': faults, 'end': end})
+            # environment of this process: something older (longer or shorter) already sits at the output path; the
+            # temporary directory is on another file system than the output
+            if rng.random() < 0.25:
+                ops[-1]['preexisting'] = rng.choice(['longer', 'longer', 'shorter'])
+            if target == 'cli' and rng.random() < 0.4:
+                ops[-1]['tmpdir_other_fs'] = True
             if faults:
                 ops.append({'op': 'export', 'fmt': fmt, 'target': target, 'retry': True,
                             'name': name if rng.random() < 0.6 else f'retry{k}', 'faults': [], 'end': 'exit'})
@@ -324,6 +330,23 @@ def _export_lifetime(ctx, world_spec, step, scratch, earlier_spec=None):
     ctx.observe('pre', pre)
     base, path = _paths(step, scratch)
     fmt, target = step['fmt'], step['target']
+    if step.get('preexisting'):
+        junk = (b'{"stale": "' + b'x' * 400000 + b'"}\n') if step['preexisting'] == 'longer' else b'stale\n'
+        for p_ in ([path] if fmt != 'shapefile' else [base + e_ for e_ in ('.shp', '.shx', '.dbf')]):
+            if not os.path.exists(p_):
+                with open(p_, 'wb') as fh_:
+                    fh_.write(junk)
+        ctx.emit('probe', name=f'older_{step["preexisting"]}_file_at_the_output_path')
+    other_tmp = None
+    if step.get('tmpdir_other_fs'):
+        import tempfile
+
+        from sim import core as _core
+        other_tmp = _core.other_fs_tmpdir(scratch)
+        if other_tmp is not None:
+            os.environ['TMPDIR'] = other_tmp
+            tempfile.tempdir = None
+            ctx.emit('probe', name='TMPDIR_on_another_file_system')
     ctl.begin_op('export', step['faults'])
     acked = False
     handles = []
